@@ -3,7 +3,7 @@
    (tied to the Rust serializers by the correspondence runs of C01 and of this check).
    Spec: Cddl/ConwayCddl.v (transcription of the Conway CDDL) judged by the validator of Cddl/Validator.v over the
    independent CBOR reader of Cbor/Item.v. *)
-From CSL Require Import Num.Value Cddl.NoZeroAssets Builder.Totals Builder.Change Cddl.ChangeNoZero.
+From CSL Require Import Num.Value Cddl.NoZeroAssets Builder.Totals Builder.Change Cddl.ChangeNoZero Cddl.NormPos.
 From CSL Require Import Base.Prelude Cbor.Head Cbor.Item Cbor.ItemProofs Codec.Schema Codec.SchemaProofs
   Ledger.Schemas Ledger.SchemasProofs
   Cddl.Rules Cddl.Validator Cddl.ValidatorProofs Cddl.ConwayCddl Cddl.ToItem Cddl.ToItemProofs Cddl.CanonProofs
@@ -166,21 +166,30 @@ Theorem C03_add_change_no_zero_assets : forall (O : Type) (orc : @oracle O) fuel
 Proof. intros O orc. exact (add_change_keeps_outputs_pos orc). Qed.
 Print Assumptions C03_add_change_no_zero_assets.
 
-(* the premise on the inputs is needed: the builder does not DROP a degenerate entry it is given (known finding
-   C03-builder-echoes-degenerate-given-values).  Witness: one input holding `asset => 0`, no output, the trivial oracle
-   (fee 0, minimum ADA 0, nothing too big): add_change succeeds and appends a change output with that zero quantity. *)
+(* the former witness of finding C03-builder-echoes-degenerate-given-values (fixed in /repo: push_input stores an amount
+   without zero quantities / asset-less policies, add_output refuses a value that has them): one input holding `asset => 0`,
+   no output, the trivial oracle (fee 0, minimum ADA 0, nothing too big).  Before the fix add_change succeeded and appended a
+   change output with that zero quantity; now such a state cannot be built through the API (value_without_empty_entries_pos
+   below), and even on it add_change fails in add_output instead of echoing the entry. *)
 Definition triv_oracle : @oracle unit :=
   mkOracle (fun _ o => (Ok 0, o)) (fun _ o => (Ok 0, o)) (fun _ o => (false, o)) (fun _ o => (false, o))
            (fun _ _ o => (([], true), o)).
-Theorem C03_add_change_echo_refuted : exists s,
+Theorem C03_add_change_echo_fixed : exists s,
   outputs_pos s = true /\ total_input_pos s = false /\
-  out_res (add_change triv_oracle 8 1 0 s tt) = Ok true /\
-  outputs_pos (out_st (add_change triv_oracle 8 1 0 s tt)) = false.
+  out_res (add_change triv_oracle 8 1 0 s tt) = Err /\
+  outputs_pos (out_st (add_change triv_oracle 8 1 0 s tt)) = true.
 Proof.
   exists (set_s_inputs [(1, mkValue 10 (Some [(repeat 1 28, [([65], 0)])]))] (new_state (mkConfig 0 0 false false))).
   vm_compute. repeat split.
 Qed.
-Print Assumptions C03_add_change_echo_refuted.
+Print Assumptions C03_add_change_echo_fixed.
+
+(* what push_input stores is free of zero quantities and empty bundles, and add_output's test is exactly value_pos *)
+Theorem C03_stored_amounts_pos : forall v,
+  value_pos (Num.ValueNorm.value_without_empty_entries v) = true /\
+  value_pos v = negb (Num.ValueNorm.value_has_empty_entries v).
+Proof. exact stored_amounts_pos. Qed.
+Print Assumptions C03_stored_amounts_pos.
 
 (* ---- non-vacuity ---- *)
 Example C03_tables_nonempty :
